@@ -19,7 +19,7 @@ import (
 // C18 — file access never escapes the project root.
 //
 // Sub-properties: "ops" (every ChrootFs operation x path spelling x root: enumerated
-// exhaustively over a six-segment alphabet, plus drawn longer paths over a real in-memory
+// exhaustively over a seven-segment alphabet, plus drawn longer paths over a real in-memory
 // filesystem) and "imports" (import statements spelling such paths, compiled through
 // pkg/loader's ChrootFs wrapping).
 
@@ -29,7 +29,7 @@ var c18Ops13 = []string{"Create", "Mkdir", "MkdirAll", "Open", "OpenFile", "Remo
 // whose name merely starts like the root's ("/a.b" next to root "/a") must not pass for
 // inside, and paths can leave the root and come back into it.
 var (
-	c18Alphabet = []string{"", ".", "..", "a", "a.b", "a b"}
+	c18Alphabet = []string{"", ".", "..", "a", "a.b", "a b", "A"} // "A": a sibling that differs from a root segment only in letter case
 	c18Roots    = [][]string{{}, {"a"}, {"a", "a.b"}, {"a", "a.b", "a b"}}
 )
 
@@ -180,7 +180,7 @@ func checkC18Op(x *X, c c18OpCase) error {
 	return nil
 }
 
-var c18DrawNames = []string{"a", "ab", "a.b", "a b", "b", "...", ".a", "a..", "..a", " "}
+var c18DrawNames = []string{"a", "ab", "a.b", "a b", "b", "...", ".a", "a..", "..a", " ", "A", "A.B", "Ab"}
 
 func genC18Op(t *rapid.T) c18OpCase {
 	c := c18OpCase{Mem: true, Op: pick(t, c18Ops13, "op")}
@@ -215,7 +215,7 @@ func genC18Op(t *rapid.T) c18OpCase {
 }
 
 var c18Ops = Define("C18", "ops",
-	"Exhaustive: every path of 1..5 (quick) / 1..7 (thorough) segments over {'', '.', '..', 'a', 'a.b', 'a b'} (a final '' is a trailing slash, inner '' a doubled slash), relative and absolute, x roots '/', '/a', '/a/a.b', '/a/a.b/a b' x the 13 operations of ChrootFs (both arguments of Rename separately) over a recording filesystem; the path list is split over the shards by index. Plus drawn cases: 6..14 segments over a larger name pool (dots, spaces, names that extend a root segment, segments naming the root again), root depth 0..3 optionally spelled with a trailing '/' or '/.', over a real in-memory filesystem holding the target file. Oracle: segment-stack resolver (no filepath calls). Outside: the operation returns an error and nothing at all reaches the filesystem below; inside: exactly one call with the canonical path (same for all spellings), and Open/OpenFile/Stat find the file that lives there. Non-trivial: the path contains '..' and still resolves inside (never leaves, leaves and comes back, or ends exactly at the root); distinct keys kept for drawn cases and enumerated paths of <=5 segments.",
+	"Exhaustive: every path of 1..5 (quick) / 1..7 (thorough) segments over {'', '.', '..', 'a', 'a.b', 'a b', 'A'} (a final '' is a trailing slash, inner '' a doubled slash), relative and absolute, x roots '/', '/a', '/a/a.b', '/a/a.b/a b' x the 13 operations of ChrootFs (both arguments of Rename separately) over a recording filesystem; the path list is split over the shards by index. Plus drawn cases: 6..14 segments over a larger name pool (dots, spaces, names that extend a root segment, segments naming the root again), root depth 0..3 optionally spelled with a trailing '/' or '/.', over a real in-memory filesystem holding the target file. Oracle: segment-stack resolver (no filepath calls). Outside: the operation returns an error and nothing at all reaches the filesystem below; inside: exactly one call with the canonical path (same for all spellings), and Open/OpenFile/Stat find the file that lives there. Non-trivial: the path contains '..' and still resolves inside (never leaves, leaves and comes back, or ends exactly at the root); distinct keys kept for drawn cases and enumerated paths of <=5 segments.",
 	genC18Op, checkC18Op)
 
 // c18Enumerate runs the exhaustive part; returns the number of violating cases.
@@ -327,7 +327,7 @@ func genC18Import(t *rapid.T) c18ImportCase {
 				all := append(append([]string{}, c.Root...), c.ModDir...)
 				sb.WriteString(all[rapid.IntRange(0, len(all)-1).Draw(t, "known")])
 			default:
-				sb.WriteString(pick(t, []string{"a", "ab", "a.b", "r", "m", "x", "..."}, "name"))
+				sb.WriteString(pick(t, []string{"a", "ab", "a.b", "r", "m", "x", "...", "A", "R", "Ab", "M"}, "name"))
 			}
 			// separator: single or doubled slash
 			if rapid.IntRange(0, 7).Draw(t, "doubled") == 0 {
